@@ -174,8 +174,16 @@ def reads(ctx, R="R-C12-frame-aligned-reads", R2="R-C12-bytes-accounted"):
     else:
         raise AnalysisError("%s: %s" % (R2, res["reason"]))
     # frames per read: nb // (chancount*sampsize), clipped to what the header promises
-    alts = list(cc.strip_cond(S.subst(ns, mapping)))
-    okf = any(S.compare(leaf, S.floordiv(raw_len, F))["verdict"] == "equal" for _, leaf in alts)
+    ns_m = S.subst(ns, mapping)
+    dom_ = {"chancount": [S.Fraction(v) for v in (1, 2, 3)], "sampsize": [S.Fraction(v) for v in (1, 2, 4)],
+            "nbytes_read": [S.Fraction(v) for v in (0, 1, 2, 3, 5, 6, 7, 12, 24)],
+            "sampcount": [S.Fraction(v) for v in (1, 2, 5, 100)], "sampsdone": [S.Fraction(v) for v in (0, 1, 3)]}
+    try:
+        whole = S.compare(ns_m, S.emin(S.floordiv(raw_len, F), S.sub(S.sym("sampcount"), S.sym("sampsdone"))), domain=dom_)["verdict"] == "equal"
+    except Exception:
+        whole = False
+    alts = list(cc.strip_cond(ns_m)) if not whole else []
+    okf = whole or any(S.compare(leaf, S.floordiv(raw_len, F))["verdict"] == "equal" for _, leaf in alts)
     ctx.check(okf, R2, f, progress[0], "frames per read = bytes read // (channels x sample size)",
               "frames counted per read is %s, not nbytes // (chancount*sampsize)" % S.show(S.subst(ns, mapping)))
     # destination slice is [sampsdone*chancount : (sampsdone+ns)*chancount]
@@ -263,10 +271,33 @@ def header(ctx):
     pm = astq.parents(f)
     # every raise raises the caller's error object
     raises = astq.raises_of(f)
-    ctx.need(len(raises) >= 4, R, "expected at least 4 raises in read_header, found %d" % len(raises))
     for r in raises:
         ctx.check(astq.is_name(r.exc, "error"), R, f, r, "header failures raise the caller's error object",
                   "read_header raises %s instead of the caller's error" % astq.text(r.exc) if r.exc is not None else "bare raise")
+    # the magic is tested before any header text is converted: int() / unpacking of the split lines raise ValueError for input
+    # that is not a SPHERE file at all, which must be reported with the caller's error
+    cfg0 = CFG(f.node)
+    magic = [n for n in f.body_nodes() if isinstance(n, ast.If) and any(isinstance(x, ast.Constant) and x.value == b"NIST_1A" for x in ast.walk(n.test))
+             and any(isinstance(x, ast.Raise) for x in n.body)]
+    if len(magic) == 1:
+        dom = cfg0.dominators(skip_exc=True)
+        mnode = cfg0.node(magic[0])
+        for st in f.body_nodes():
+            if not isinstance(st, (ast.Assign, ast.AugAssign, ast.Expr)) or st is magic[0]:
+                continue
+            conv = [c for c in ast.walk(st) if isinstance(c, ast.Call) and isinstance(c.func, ast.Name) and c.func.id in ("int", "float")]
+            unpack = isinstance(st, ast.Assign) and isinstance(st.targets[0], ast.Tuple) and any(astq.attr_call(c, "split") for c in ast.walk(st.value) if isinstance(c, ast.Call))
+            if not conv and not unpack:
+                continue
+            n_ = cfg0.node(st)
+            if n_ is None or n_ not in dom:
+                continue
+            ctx.check(mnode in dom[n_], R, f, st, "the NIST_1A magic is verified before any header text is converted",
+                      "`%s` converts header text before the NIST_1A test: for input that is not a SPHERE file (text, zeros, RIFF) the conversion raises "
+                      "ValueError instead of the caller's IOError" % astq.text(st)[:70], robust=True)
+    else:
+        ctx.error(R, "cannot decide whether the magic is tested first: %d tests of b'NIST_1A' guarding a raise" % len(magic))
+    ctx.need(len(raises) >= 4, R, "expected at least 4 raises in read_header, found %d" % len(raises))
     # no byte read from the stream is thrown away
     reads_ = [c for c in astq.func_calls(f) if astq.attr_call(c, "read") and astq.is_name(c.func.value, "file_")]
     ctx.need(len(reads_) >= 2, R, "header reads not found")
@@ -392,6 +423,9 @@ def conversions(ctx):
               "sample_n_bytes 1/2/4 are read as uint8/int16/int32", "sample size to input type table is %s" % sizes)
     # expansion iff target wider than a byte, table by coding
     R2 = "R-C12-expansion"
+    loop = [n for n in f.body_nodes() if isinstance(n, ast.While)][0]
+    if _expansion_by_value(ctx, R2, f, ev, loop):
+        return
     conv_assign = [n for n in f.body_nodes() if isinstance(n, ast.Assign) and astq.is_name(n.targets[0], "convert")
                    and isinstance(n.value, ast.Constant) and n.value.value is True]
     ctx.need(len(conv_assign) == 1, R2, "`convert = True` not found")
@@ -401,9 +435,7 @@ def conversions(ctx):
     s = S.show(gt)
     ok = ("sampsize < " in s and "itemsize" in s) and ("alaw" in s and "ulaw" in s)
     ctx.check(ok, R2, f, g[0], "G.711 codes are expanded iff the requested sample type is wider than the stored one",
-              "expansion is enabled under %s" % s)
-    # default dtype: int16 for alaw/ulaw, else the stored type
-    loop = [n for n in f.body_nodes() if isinstance(n, ast.While)][0]
+              "expansion is enabled under %s" % s, structural=True)
     tabs = {}
     for n in ast.walk(loop):
         if isinstance(n, ast.Assign) and isinstance(n.value, ast.Subscript) and isinstance(n.value.value, ast.Name) and n.value.value.id in spec.G711:
@@ -417,6 +449,89 @@ def conversions(ctx):
     ctx.check(ok, R2, f, loop, "A-law data goes through ALAW2PCM and mu-law data through ULAW2PCM, only when converting",
               "expansion table selection is %s" % tabs)
 
+
+
+def _expansion_by_value(ctx, R, f, ev, loop):
+    """what is stored into the output, per coding and width scenario: A-law codes through ALAW2PCM and mu-law codes through
+    ULAW2PCM when (and only when) the requested type is wider than the stored one; everything else as read"""
+    from .. import scenario as SC
+    stores = [n for n in ast.walk(loop) if isinstance(n, ast.Assign) and isinstance(n.targets[0], ast.Subscript) and astq.base_name(n.targets[0]) == "data"]
+    if len(stores) != 1:
+        return False
+    try:
+        val = ev.eval_at(stores[0], stores[0].value)
+    except Exception:
+        return False
+    modq = f.module.name
+    what = "A-law data goes through ALAW2PCM and mu-law data through ULAW2PCM, exactly when the requested type is wider than the stored one"
+
+    SIZES = {"uint8": 1, "int8": 1, "int16": 2, "int32": 4, "float32": 4, "float64": 8}
+
+    def spec_(e, samptype, sampsize, dtype):
+        def fn(x):
+            if x.op == "sym":
+                if x.args[0] == "samptype":
+                    return S.lift(samptype)
+                if x.args[0] == "sampsize":
+                    return S.lift(sampsize)
+                if x.args[0] == "dtype":
+                    return S.NONE if dtype is None else S.sym("numpy." + dtype)
+                return None
+            if SC.is_call(x, "np.dtype", "numpy.dtype") and len(x.args) == 2 and x.args[1].op == "sym":
+                nm = x.args[1].args[0]
+                if nm.startswith("dt:"):
+                    return x.args[1]
+                if nm.startswith(("numpy.", "np.")) and nm.split(".", 1)[1] in SIZES:
+                    return S.sym("dt:" + nm.split(".", 1)[1])
+                return None
+            if SC.is_call(x, ".itemsize") and len(x.args) == 2 and x.args[1].op == "sym" and x.args[1].args[0].startswith("dt:"):
+                return S.lift(SIZES[x.args[1].args[0][3:]])
+            if x.op == "cmp" and x.args[0] in ("==", "!=", "is", "is not"):
+                a_, b_ = x.args[1], x.args[2]
+                def dt(y):
+                    if y.op == "sym" and y.args[0].startswith("dt:"):
+                        return y.args[0][3:]
+                    if y.op == "sym" and y.args[0].startswith(("numpy.", "np.")) and y.args[0].split(".", 1)[1] in SIZES:
+                        return y.args[0].split(".", 1)[1]
+                    return None
+                if dt(a_) and dt(b_):
+                    return S.lift((dt(a_) == dt(b_)) == (x.args[0] in ("==", "is")))
+                if (dt(a_) and b_ == S.NONE) or (dt(b_) and a_ == S.NONE):
+                    return S.lift(x.args[0] in ("!=", "is not"))
+                return None
+            if x.op in ("not", "bool") and x.args[0].op == "sym" and x.args[0].args[0].startswith(("dt:", "numpy.")):
+                return S.lift(x.op == "bool")  # a dtype / a scalar type is truthy
+            return SC.fold_membership(x)
+        out = e
+        for _ in range(6):
+            nxt = SC.transform(out, fn)
+            if nxt == out:
+                break
+            out = nxt
+        return out
+    n_ok = 0
+    scen = [(st, 1, dt_) for st in ("alaw", "ulaw") for dt_ in (None, "uint8", "int8", "int16", "int32", "float32", "float64")] + \
+           [("pcm", 1, None), ("pcm", 1, "int16"), ("pcm", 2, None), ("pcm", 2, "float64"), ("pcm", 4, None)]
+    for samptype, sampsize, dtype in scen:
+        if True:
+            got = spec_(val, samptype, sampsize, dtype)
+            if got.op in ("cond", "unknown"):
+                return False  # the choice of table still depends on something the scenario does not fix
+            tab = None
+            if SC.is_call(got, "getitem") and len(got.args) == 3 and got.args[1].op == "sym" and got.args[1].args[0].startswith(modq + "."):
+                tab = got.args[1].args[0].rsplit(".", 1)[1]
+            if any(x.op == "sym" and x.args[0].rsplit(".", 1)[-1] in spec.G711 for y in (got.args[2:] if tab else [got]) for x in S.walk(y) if isinstance(x, S.E)):
+                return False  # a table used somewhere below the top of the value: not a shape this clause reads
+            wide = SIZES[dtype or ("int16" if samptype in ("alaw", "ulaw") else {1: "uint8", 2: "int16", 4: "int32"}[sampsize])] > sampsize
+            want = {"alaw": "ALAW2PCM", "ulaw": "ULAW2PCM"}.get(samptype) if wide else None
+            sc = "sample_coding %s, %d-byte samples, dtype=%s" % (samptype, sampsize, dtype)
+            if tab != want:
+                ctx.bad(R, f, stores[0], "[%s] the samples stored are %s, documented: %s" % (
+                    sc, ("looked up in %s" % tab) if tab else "the codes as read", ("looked up in %s" % want) if want else "the codes as read"), what, robust=True)
+                return True
+            n_ok += 1
+    ctx.ok(R, f.loc(stores[0]), what, "%d coding x width scenarios evaluated" % n_ok)
+    return True
 
 
 def field_types(ctx, R="R-C12-header"):
